@@ -201,6 +201,18 @@ def main():
     if tr.returncode != 0:
         run.broken.append("translator")
         run.note("translator failed: " + tr.stdout[-500:])
+        # The tie is broken (that alone is reported).  For the SEARCH for a failing input the model and the generated shims
+        # are taken from the last committed source (git HEAD of the tree under check) instead: the compiled code of the
+        # working tree is then compared with the translation of HEAD, and a function whose behaviour changed shows up as a
+        # divergence with a concrete input.
+        import tempfile, shutil
+        pristine = tempfile.mkdtemp(prefix="verif-head-")
+        ar = subprocess.run(f"git -C {vlib.REPO} archive HEAD src include | tar -x -C {pristine}", shell=True,
+                            stdout=subprocess.PIPE, stderr=subprocess.STDOUT, text=True)
+        if ar.returncode == 0:
+            tr2 = vlib.sh([sys.executable, os.path.join(V, "translate", "gen.py")], env=dict(os.environ, VERIF_REPO=pristine))
+            run.note("search phase: model regenerated from git HEAD" if tr2.returncode == 0 else "search phase: translation of git HEAD failed too: " + tr2.stdout[-300:])
+        shutil.rmtree(pristine, ignore_errors=True)
     elif tr.stdout.strip():
         run.note("translator: " + tr.stdout.strip().replace("\n", " | ")[:600])
 
